@@ -95,12 +95,15 @@ func init() {
 			c.guard("RW.SCOPE.INIT", r.ruleScopeInit)
 			c.guard("RW.TMPL.FORPOST", func() { r.ruleScopeAgree(true, "forpost") })
 			c.guard("RW.TMPL.COMBINESPLIT", r.ruleTmplCombineSplit)
+			c.guard("RW.TMPL.SWITCH.GUARD", r.ruleTmplStmts)
 			// scoping only: the combine table, hoisting (not return rewriting), the consumer loop's binding form
 			c.keep(func(o Obligation) bool {
 				switch o.Rule {
 				case "RW.KINDTAB":
 					return o.Construct == "combineRequired"
 				case "RW.TMPL.RETURN", "RW.TMPL.RANGE.TUPLE": // evaluation order of '=' range bindings is C04's
+					return false
+				case "RW.TMPL.IF", "RW.TMPL.SWITCH": // dropped statements / clauses are C01's; only the guard's binding is scoping
 					return false
 				case "RW.TMPL.CONSUMER":
 					return strings.Contains(o.Construct, "<Ident>") || strings.Contains(o.Construct, "nested in its own block")
@@ -138,6 +141,7 @@ func init() {
 			r := newRwRT(c)
 			c.guard("RW.TMPL.YIELDFROM", r.ruleTmplYieldFrom)
 			c.guard("RW.TMPL.CONSUMER", r.ruleTmplConsumer)
+			c.guard("RW.TMPL.CONSUMER", r.ruleConsumerDispatch)
 			c.guard("RW.FILEPASSES", r.ruleFilePasses)
 			// a delegation in for-post position must reach the lowering (not be re-emitted verbatim)
 			c.guard("RW.FIELDCOV", r.ruleCover)
@@ -173,6 +177,7 @@ func init() {
 		Run: func(c *Ctx) {
 			r := newRwRT(c)
 			c.guard("RW.TMPL.CONSUMER", r.ruleTmplConsumer)
+			c.guard("RW.TMPL.CONSUMER", r.ruleConsumerDispatch)
 			c.guard("RW.TMPL.ITERTYPE", r.ruleIterType)
 			c.guard("RW.FILEPASSES", r.ruleFilePasses)
 			c.keep(func(o Obligation) bool {
@@ -267,8 +272,24 @@ func init() {
 			c.guard("RW.TMPL.BIND", r.ruleTmplBind)
 			c.guard("RW.TMPL.COMBINE", r.ruleTmplCombine)
 			c.guard("RW.TMPL.FOR", r.ruleTmplFor)
+			// "exactly the source statements ... in source order": no part of a statement is dropped, conditions,
+			// tags and guards stay where the statement is (a hoisted tag runs before the initialiser / a step early)
+			c.guard("RW.NOLOSS", r.ruleCover)
+			c.guard("RW.TMPL.IF", r.ruleTmplStmts)
 			c.guard("OPT.WHITELIST", func() { r.ruleOptWhitelist(s) })
 			c.guard("OPT.RULES", r.ruleOptRules)
+			c.keep(func(o Obligation) bool {
+				switch o.Rule {
+				case "RW.DISPATCH", "RW.FIELDCOV", "RW.DEEPVISIT": // rejection and yield coverage are C12's
+					return false
+				}
+				return true
+			})
+			c.min("RW.NOLOSS", 20)
+			c.min("RW.TMPL.SWITCH.GUARD", 4)
+			c.min("SEQ.FOR", 6)
+			c.min("SEQ.GEN", 10)
+			c.min("OPT.WHITELIST", 4)
 		},
 	})
 }
